@@ -59,7 +59,8 @@ Section Meta.
   (* what a run that continues from a state may configure differently: gaussianSigmas / hillWidth, hillWeight,
      newHillFrequency *)
   Record params := mkPar { p_sigmas : list T; p_hill_width : T; p_weight : T; p_freq : Z;
-                           p_gfreq : Z; p_wt : bool; p_bias_temp : T }.
+                           p_gfreq : Z; p_wt : bool; p_bias_temp : T;
+                           p_keep : bool   (* keepHills may be switched OFF for the run that follows (on only if it was on) *) }.
 
   (* one engine step as seen by the bias *)
   Record step_in := mkIn {
@@ -505,7 +506,7 @@ Section Meta.
   (* the configuration of the run that follows an event *)
   Definition with_par (c : cfg) (p : params) : cfg :=
     mkCfg (c_vars c) (c_geom0 c) (p_sigmas p) (p_weight p) (p_hill_width p) (p_freq p) (p_gfreq p) (c_use_grids c)
-          (c_keep c) (p_wt p) (p_bias_temp p) (c_kb c) (c_step_zero c) (c_eb c) (c_eb_equil c) (c_eb_target c).
+          (c_keep c && p_keep p) (p_wt p) (p_bias_temp p) (c_kb c) (c_step_zero c) (c_eb c) (c_eb_equil c) (c_eb_target c).
   Definition next_cfg (c : cfg) (e : event) : cfg := match e with EReconf p => with_par c p | _ => c end.
 
   (* the state is written under the old configuration and read by an instance with the new one (what is read does not
